@@ -4,6 +4,7 @@ import (
 	"errors"
 	"io"
 	"time"
+	"verifharness/peers"
 
 	"github.com/pkg/sftp"
 
@@ -53,7 +54,7 @@ func vhStartRS(h sftp.Handlers, copts []sftp.ClientOption, sopts ...sftp.Request
 func vhStartOS(copts []sftp.ClientOption, sopts ...sftp.ServerOption) (*vhPair, error) {
 	c2sR, c2sW := io.Pipe()
 	s2cR, s2cW := io.Pipe()
-	srv, err := sftp.NewServer(vhPipeEnd{Reader: c2sR, WriteCloser: s2cW, extra: func() { c2sR.Close() }}, sopts...)
+	srv, err := peers.NewOSServer(vhPipeEnd{Reader: c2sR, WriteCloser: s2cW, extra: func() { c2sR.Close() }}, sopts...)
 	if err != nil {
 		return nil, err
 	}
